@@ -20,10 +20,10 @@ import (
 
 type C10Case struct {
 	Script
-	Reuse bool    `json:"reuse"`           // the application reuses one message object for all its sends
-	Prior *Script `json:"prior,omitempty"` // an earlier logged-on session on the same stores, after which the application reset both counters (a new trading day): the numbers start again at 1 and the store must answer with the NEW messages
-	CounterFails bool `json:"counter_fails,omitempty"`
-	Stamp bool    `json:"stamp"`           // an application outgoing handler stamps every message that has a Text field (the documented use of HandleOutgoing): what goes out first, and is stored, carries the stamp
+	Reuse        bool    `json:"reuse"`           // the application reuses one message object for all its sends
+	Prior        *Script `json:"prior,omitempty"` // an earlier logged-on session on the same stores, after which the application reset both counters (a new trading day): the numbers start again at 1 and the store must answer with the NEW messages
+	CounterFails bool    `json:"counter_fails,omitempty"`
+	Stamp        bool    `json:"stamp"` // an application outgoing handler stamps every message that has a Text field (the documented use of HandleOutgoing): what goes out first, and is stored, carries the stamp
 }
 
 func genC10(t *rapid.T) *C10Case {
@@ -111,6 +111,13 @@ func genC10(t *rapid.T) *C10Case {
 		c.Prior = p
 	}
 	c.Stamp = !c.Reuse && rapid.IntRange(0, 3).Draw(t, "stamp") == 0
+	if c.Prior == nil && !c.Reuse && rapid.IntRange(0, 5).Draw(t, "failSaves") == 0 {
+		// the message store refuses one or two Save calls: those messages are not transmitted (C19) and
+		// cannot be asked for again; everything that did go out can
+		for k := rapid.IntRange(1, 2).Draw(t, "nFailSaves"); k > 0; k-- {
+			c.Cfg.FailSaves = append(c.Cfg.FailSaves, rapid.IntRange(2, 16).Draw(t, "failSave"))
+		}
+	}
 	// a message store that keeps its messages per session identity (the StorageID it is given)
 	c.Cfg.PartitionStore = c.Prior == nil && rapid.IntRange(0, 2).Draw(t, "partitionStore") == 0
 	return c
@@ -239,6 +246,43 @@ func checkC10(c *C10Case, rec *evid.Rec) (vs []pbt.Violation) {
 				want = append(want, k)
 			}
 		}
+		if want != nil && len(c.Cfg.FailSaves) > 0 {
+			// a retransmission passes through the store again: when one of the refused Save calls falls
+			// into this very answer, the rest of the answer is legitimately missing
+			evs := tr.Log.Since(0)
+			raw := st.In.Bytes()
+			for j, e := range evs {
+				if e.Kind != "inject" || !bytes.Equal(e.Bytes, raw) {
+					continue
+				}
+				if kind == "to-end" {
+					// "through the last message sent" is resolved from the counter store; a number that was taken
+					// but never went out (its Save was refused) then lies inside the range
+					for _, f := range evs[:j] {
+						if f.Kind == "store:save" && f.Err {
+							want = nil
+							rec.Hist("open-ended-request-after-a-refused-save")
+						}
+					}
+				}
+				for _, f := range evs[j+1:] {
+					if f.Kind == "inject" || f.Kind == "send-call" {
+						break
+					}
+					if f.Kind == "store:save" && f.Err {
+						want = nil
+						rec.Hist("save-refused-during-the-answer")
+					}
+				}
+			}
+		}
+		for _, k := range want {
+			if _, sent := first[k]; !sent {
+				want = nil // the range holds a number that never went out (its Save failed): exactness is not defined
+				rec.Hist("range-holds-a-number-that-was-never-transmitted")
+				break
+			}
+		}
 		if want != nil && fmt.Sprint(got) != fmt.Sprint(want) {
 			vs = append(vs, pbt.V(reusedKey("resend-incomplete:"+kind), "step %d: ResendRequest %d..%d (last sent %d) must retransmit %v, retransmitted %v", i, b, e, lastBefore, want, got))
 			break
@@ -251,6 +295,9 @@ func checkC10(c *C10Case, rec *evid.Rec) (vs []pbt.Violation) {
 	}
 	if c.CounterFails {
 		rec.Hist("counter-store-refuses-writes-before-a-request")
+	}
+	if len(c.Cfg.FailSaves) > 0 {
+		rec.Hist("message-store-refuses-some-saves")
 	}
 	if c.Cfg.PartitionStore {
 		rec.Hist("store-partitioned-by-identity")
@@ -284,6 +331,7 @@ type C10GapCase struct {
 	Received  int     `json:"received"`       // MsgSeqNum r of the peer's Logon
 	MaxHB     int     `json:"max_hb"`
 	ResetFlag bool    `json:"reset_flag,omitempty"` // the Logon carries ResetSeqNumFlag=Y
+	Lowered   int     `json:"lowered,omitempty"`    // the store held this higher number before it was set (down) to Expected: a peer that started its numbering afresh had been recorded since
 	AppReset  bool    `json:"app_reset,omitempty"`  // the stored number is what ResetSeqNum leaves behind (the application reset the incoming side): Expected is 0 by definition
 }
 
@@ -300,6 +348,9 @@ func genC10Gap(t *rapid.T) *C10GapCase {
 		c.Received = 0
 	}
 	c.MaxHB = cfg.HBMax
+	if rapid.IntRange(0, 2).Draw(t, "lowered") == 0 {
+		c.Lowered = c.Expected + rapid.IntRange(1, 40).Draw(t, "loweredFrom")
+	}
 	c.ResetFlag = rapid.IntRange(0, 4).Draw(t, "resetFlag") == 0
 	if rapid.IntRange(0, 4).Draw(t, "appReset") == 0 {
 		c.AppReset = true
@@ -311,6 +362,10 @@ func genC10Gap(t *rapid.T) *C10GapCase {
 
 func checkC10Gap(c *C10GapCase, rec *evid.Rec) (vs []pbt.Violation) {
 	inner := memory.NewStorage()
+	if c.Lowered > 0 {
+		_ = inner.SetSeqNum(fix.StorageID{Side: fix.Incoming}, c.Lowered)
+		rec.Hist("stored-number-was-higher-before")
+	}
 	_ = inner.SetSeqNum(fix.StorageID{Side: fix.Incoming}, c.Expected)
 	if c.AppReset {
 		_ = inner.SetSeqNum(fix.StorageID{Side: fix.Incoming}, 57) // whatever was there before ...
